@@ -922,6 +922,7 @@ struct VM : VMBase
       int64_t seen = -1;
       for (int round = 0; round < 60; ++round)
       {
+        expected = live_logged_threads; // (a long-lived thread may log for the first time while we wait)
         int64_t n = 0;
         quill::detail::ThreadContextManager::instance().for_each_thread_context(
           [&n](quill::detail::ThreadContext*) { ++n; });
